@@ -180,7 +180,7 @@ SIMPLE = [
     (r'Vec::<.*>::dedup$', 'M.vec_dedup'),
     (r'Vec::<.*>::drain::<RangeFull>$', 'M.vec_drain_full'),
     (r'<Vec<.*> as Index<RangeFull>>::index$', 'M.vec_index_full'),
-    (r'<String as Index<RangeFull>>::index$', 'M.vec_index_full'),
+    (r'<(String|str) as Index<RangeFull>>::index$', 'M.vec_index_full'),
     (r'HashMap::<.*>::get_mut::<.*>$', 'M.hashmap_get_mut'),
     (r'HashMap::<.*>::len$', 'M.hashmap_len'),
     (r'HashMap::<.*>::is_empty$', 'M.hashmap_is_empty'),
@@ -359,11 +359,14 @@ def lookup(callee, gen):
         return 'rt.call_closure(%s)' % c[0]
     # ---- PartialEq through references for the crate's own (derived) types
     m = re.match(r'<&(\w+) as PartialEq>::(eq|ne)$', s)
-    if m and m.group(1) in ENGINE_EQ_TYPES:
+    if m and gen.by_canon.get('<%s as PartialEq>::eq' % m.group(1)) is not None:
         b = gen.by_canon.get('<%s as PartialEq>::eq' % m.group(1))
-        if b is None:
-            return None
         return 'M.ref_%s(%s)' % (m.group(2), gen.pyname[id(b)])
+    # ---- `!=` on the crate's own derive(PartialEq) types: PartialEq::ne has no body in the crate (default method)
+    m = re.match(r'<(\w+) as PartialEq>::ne$', s)
+    if m and gen.by_canon.get('<%s as PartialEq>::eq' % m.group(1)) is not None:
+        b = gen.by_canon.get('<%s as PartialEq>::eq' % m.group(1))
+        return 'M.ne_of(%s)' % gen.pyname[id(b)]
     # ---- into_iter: identity for iterators, by-value iteration for Vec
     m = re.match(r'<(.*) as IntoIterator>::into_iter$', s)
     if m:
